@@ -411,4 +411,14 @@ def accepted (U : Universe) (sid : Nat) : Bool :=
 def schemaOf (U : Universe) : Schema :=
   (resolveAll U).map fun o => o.getD { fields := [] }
 
+/-- model of the argument checks of the three entry points (reflect.go, desc.go
+    `createStructDesc`): results of (EncodedSize, EncodeObject, DecodeObject[STOP]) for an
+    argument that is not a (pointer to a) struct, and for the degenerate struct arguments. -/
+def argOutcome (kind : String) : String :=
+  match kind with
+  | "ptr" => "ok:8 ok:8 ok:1"              -- &S{A int32}: field header + 4 + STOP
+  | "struct" => "ok:8 ok:8 err"            -- by value: encodable, not decodable
+  | "nilptr" => "ok:1 ok:1 err"            -- typed nil *S: written as a lone STOP
+  | _ => "panic:ordinary err err"          -- nil, int, *int, **S, slice, map, string, func, chan
+
 end Frugal
